@@ -159,7 +159,7 @@ seq(prop="C03", lean_targets=["TransportVerif.Props.C03"], driver_args=["C03"],
     level_text="Theorems inbound_judged (every inbound answer equals NatSpec.allowedIn: forwarded to the mapping's creator iff a live mapping owns the destination and the sender matches a permission recorded by an earlier outbound datagram of that mapping; dropped otherwise), inbound_is_silent (for every reachable state, an inbound datagram — forwarded or refused — changes no later answer; proved via canon = the unexpired mappings), inbound_to_owner, one_to_one_inbound (Props/C03.lean). Same model and tie as C02; every refused inbound of the generated histories is followed by further calls whose answers are compared.", level_note='Trusted: as C02. Payload and source address of a forwarded datagram are checked by the harness on the real chunk (the model does not carry payloads).', **_NAT_COMMON)
 
 seq(prop="C13", lean_targets=["TransportVerif.Props.C13"], pkg="vnet", run="^TestVerifRouterAddr$", component="router",
-    files=["addr_h_test.go"], quick_n=4000, thorough_n=150000,
+    files=["addr_h_test.go"], quick_n=4000, thorough_n=40000,
     variants=[dict(name="router"), dict(name="host", run="^TestVerifHostAddr$", component="host")],
     nontrivial=["static-in-auto-range", "auto-skips-static", "exhausted", "conflict", "ephemeral-skips-used", "same-port-other-ip", "probe-hit", "wildcard"],
     rule="router part: random orders of static (pairwise distinct, biased to the automatic range just ahead of the counter, outside the subnet, several per NIC) and "
